@@ -150,7 +150,7 @@ namespace Givaro {
         // Copied and adapted from mpz/nextprime.c
         Integer& prevprime(Integer& r, const Integer &p)
         {
-            if (p < 3) return (r=2u);
+            if (p <= 3) return (r=2u);
             if (isOdd(p))
                 mpz_sub_ui ( (mpz_ptr)&(r.gmp_rep), (mpz_srcptr)&(p.gmp_rep), 2u );
             else
